@@ -83,11 +83,6 @@ Proof.
   apply bin_code_arith; apply bytes_ok_nth; exact Hok.
 Qed.
 
-Lemma SHA_spec_ok t m : bytes_okb (SHA_spec t m) = true.
-Proof.
-  unfold SHA_spec, words_bytes. induction (sha_hash _ _ _ _ _) as [|w ws IH]; [reflexivity|].
-  cbn [flat_map]. now rewrite bytes_okb_app, be_bytes_ok, IH.
-Qed.
 Lemma HMAC_spec_length t K m : length (HMAC_spec t K m) = digest_size t.
 Proof. apply SHA_spec_length. Qed.
 Lemma HMAC_spec_ok t K m : bytes_okb (HMAC_spec t K m) = true.
